@@ -33,12 +33,21 @@ def mirror_query(q):
 def query_state(run):
     """per first-pass query id: dict(seeds=[(ref id, reverse?, seed position, (secondary peak positions...))...] in index order,
     best=unique maximal candidate or None, tied=bool)"""
-    from src.extensions.messages import AlignmentResultRowMessage, CorrelationResultMessage
+    from src.extensions.messages import AlignmentResultRowMessage, CorrelationResultMessage, InitialAlignmentMessage
     margin = int((run.case.get("args") or {}).get("-ma", 16000))
     first = {id(q): q.moleculeId for q in run.program.queryMaps}
     seeds = collections.defaultdict(list)
     cands = collections.defaultdict(list)
+    prim = collections.defaultdict(dict)
     for m in run.messages:
+        if isinstance(m, InitialAlignmentMessage):
+            ia = getattr(m, "data", None)
+            if ia is None:      # the message class keeps the correlation under some attribute: take the first that fits
+                ia = next((v for v in vars(m).values() if hasattr(v, "reverseStrand") and hasattr(v, "query")), None)
+            if ia is not None and id(ia.query) in first:
+                corr = getattr(ia, "correlation", None)
+                prim[first[id(ia.query)]][(ia.reference.moleculeId, bool(ia.reverseStrand))] = \
+                    None if corr is None else [float(x) for x in corr]
         if isinstance(m, CorrelationResultMessage) and id(m.initialAlignment.query) in first:
             ra = m.refinedAlignment
             seeds[first[id(m.initialAlignment.query)]].append(
@@ -55,8 +64,27 @@ def query_state(run):
             top = [r for r in rows if r.confidence >= mx - 1e-6]
             tied = len(top) > 1
             best = top[0]
-        out[qid] = {"seeds": seeds.get(qid, []), "best": best, "tied": tied}
+        out[qid] = {"seeds": seeds.get(qid, []), "best": best, "tied": tied, "primary": prim.get(qid, {})}
     return out
+
+
+def primaries_mirror(pa, pb):
+    """the seeding correlations of the two runs are mirror images of each other: for every (reference, strand) searched
+    in one run the other run searched (reference, other strand) and obtained the same correlation values (1e-9).  Then a
+    difference in the seeds chosen can only come from how equal or nearly equal heights are ordered (a tie: not
+    comparable).  If this does NOT hold - a strand was not searched at all, or the values differ - the difference is not
+    a tie and the records are compared."""
+    if {(r, not s) for r, s in pa} != set(pb):
+        return False
+    for (r, s), a in pa.items():
+        b = pb[(r, not s)]
+        if (a is None) != (b is None):
+            return False
+        if a is None:
+            continue
+        if len(a) != len(b) or any(abs(x - y) > 1e-9 * max(1.0, abs(x)) for x, y in zip(a, b)):
+            return False
+    return True
 
 
 def seeds_correspond(sa, sb):
@@ -87,8 +115,10 @@ def check_pipeline(case):
             cl.append("tied-skipped")
             continue
         if not seeds_correspond(sa[qid]["seeds"], sb[qid]["seeds"]):
-            cl.append("seeds-differ-skipped")
-            continue
+            if primaries_mirror(sa[qid]["primary"], sb[qid]["primary"]):
+                cl.append("seeds-differ-skipped")
+                continue
+            cl.append("seeds-differ-not-a-tie")
         n = len(q["labels"])
         x, y = ra.get(qid), rb.get(qid)
         req((x is None) == (y is None), "mirror-record-presence",
@@ -134,8 +164,13 @@ def lattice_case(draw):
     refs = []
     for rid in rids:
         n = draw(st.integers(20, 70))
-        steps = draw(st.lists(st.one_of(st.integers(1, 8), st.integers(1, 20)), min_size=n - 1, max_size=n - 1))
-        steps = [s + ((j * 5) % 4) for j, s in enumerate(steps)]
+        if draw(st.integers(0, 4)) == 0:
+            # densely labelled stretch: every gap at most three lattice steps, so that the blurred seeding image is a
+            # solid run of set bins (strand-symmetric although the labels are not) - added after seeded change C11-5
+            steps = draw(st.lists(st.integers(1, 3), min_size=n - 1, max_size=n - 1))
+        else:
+            steps = draw(st.lists(st.one_of(st.integers(1, 8), st.integers(1, 20)), min_size=n - 1, max_size=n - 1))
+            steps = [s + ((j * 5) % 4) for j, s in enumerate(steps)]
         lab = [L * draw(st.integers(0, 10))]
         for s in steps:
             lab.append(lab[-1] + s * L)
